@@ -35,6 +35,10 @@ def harnesses():
     for k in (0, 1):
         out.append(H(f"c09_neg_{KN[k]}", "C09", "quick", f"neg({k}, true)", f"neg_{KN[k]}", f"operand any {KN[k]}"))
         out.append(H(f"c08_neg_{KN[k]}", "C08", "quick", f"neg({k}, false)", f"neg_{KN[k]}", f"operand any {KN[k]}"))
+    # ---- the VM's zero-divisor test itself: is_zero(x) <=> x is a numeric zero (0, +-0.0, b'\0')
+    for k, n in KN.items():
+        out.append(H(f"c09_is_zero_{n}", "C09", "quick", f"is_zero_spec({k})", f"is_zero_{n}", f"any {n} value"))
+        out.append(H(f"c08_is_zero_{n}", "C08", "quick", f"is_zero_spec({k})", f"is_zero_{n}", f"any {n} value"))
     # ---- relational / equality over Integer and Float (the kinds C09 speaks about)
     for ka in (0, 1):
         for kb in (0, 1):
